@@ -1,16 +1,48 @@
-"""C01.S - search discipline of the graph searches (shared by C01, C14.R3): hierarchy/import classification before use,
-push / record / mark conditions, object sets.  The model of the searches is built by rules/search.py."""
+"""C01.S - search discipline of the graph searches (shared by C01, C12.MONO, C14.R3): hierarchy/import classification before use,
+push / record / mark conditions, object sets.  The model of the searches is built by rules/search.py on normalised inline views
+of the public search functions, so the obligations below are about *events with guards*, not about one spelling of the loops.
+
+Every obligation has three outcomes: discharged, VIOLATED (the construct that breaks the necessary condition is named) or
+undecided (the guard talks about a node set whose provenance the model cannot establish)."""
 
 from __future__ import annotations
 
 import ast
 
-from core.guards import atom, f_and, f_not, f_or, implies
-from core.loader import AnalysisError, Repo, calls_in, own_nodes
+from core.guards import Formula, atom, atoms_of, f_and, f_not, f_or, implies
+from core.loader import AnalysisError, Repo, norm
 from core.report import Result
 
 from . import search as S
-from .common import dotted, guard_formula, is_attr_call, stmt_of, where
+from .common import dotted, stmt_of, where
+
+
+def _hier_args(repo: Repo, call: ast.Call) -> list[str]:
+    hp = S._hier_params(repo)
+    args = {p: dotted(a) for p, a in zip(hp, call.args)}
+    for k in call.keywords:
+        if k.arg:
+            args[k.arg] = dotted(k.value)
+    if len(hp) == 2 and all(p in args for p in hp):
+        return [args[hp[0]], args[hp[1]]]
+    return [dotted(a) for a in call.args]
+
+
+def _known_sets(m: S.SearchModel) -> set[str]:
+    return set(m.submodule_sets) | set(m.accumulated_sets) | set(m.parent_id_sets) | set(m.visited_sets)
+
+
+def _unknown_sets(m: S.SearchModel, guard: Formula, variables: list[str]) -> list[str]:
+    """Node sets of unknown provenance whose membership the guard tests for one of the variables."""
+    known = _known_sets(m)
+    out = []
+    for a in sorted(atoms_of(guard)):
+        for v in variables:
+            if a.startswith(f"{v} in "):
+                s = a[len(v) + 4:]
+                if s not in known and s not in out and S.opaque_set(m, s):
+                    out.append(s)
+    return out
 
 
 def run_search(repo: Repo, res: Result) -> None:
@@ -18,11 +50,11 @@ def run_search(repo: Repo, res: Result) -> None:
     n = 0
     for m in ms:
         fi = m.fi
-        H = atom(m.hier_atom) if m.hier_atom else None
         # orientation of the hierarchy test
         for hc in m.hier_calls:
-            a = [dotted(x) for x in hc.args]
-            want = [m.popped, m.neighbour_var] if m.direction == "succ" else [m.neighbour_var, m.popped]
+            a = _hier_args(repo, hc)
+            nv = next((i.var for i in m.neighbour_iters if (S._inside_body(hc, i.node) if i.gen is None else S._inside_gen(hc, i.node, i.gen))), m.neighbour_var)
+            want = [m.popped, nv] if m.direction == "succ" else [nv, m.popped]
             n += 1
             res.add(
                 "C01.S",
@@ -36,20 +68,28 @@ def run_search(repo: Repo, res: Result) -> None:
             if not ev.in_neighbour_loop:
                 continue
             n += 1
-            if H is None:
-                res.add("C01.S", repo.key(fi, stmt_of(ev.call)), False, f"{ev.kind} of `{ev.what}` although neighbours are never classified by {S.HIER}", where(fi, ev.call), kind="dominance")
+            key = repo.key(fi, stmt_of(ev.call))
+            if not m.hier_calls:
+                res.add("C01.S", key, False, f"{ev.kind} of `{ev.what}` although neighbours are never classified by {S.HIER}", where(fi, ev.call), kind="dominance")
                 continue
+            H = m.hier(ev.nvar)
             is_h = implies(ev.guard, H)
             not_h = implies(ev.guard, f_not(H))
             if ev.kind == "record":
-                ok = not_h
-                detail = "recorded only on the import (non-hierarchy) branch" if ok else f"a pair is recorded under `{ev.guard_text}`, which does not exclude hierarchy edges: a package would 'import' its own sub modules"
-                if ok:
-                    pair = S.record_pair(m, ev)
-                    want = (m.popped, m.neighbour_var) if m.direction == "succ" else (m.neighbour_var, m.popped)
-                    if pair != want:
-                        ok = False
-                        detail = f"recorded pair is {pair}, expected (importer, importee) = {want}"
+                if m.role == "submodules":
+                    ok = is_h
+                    detail = "sub modules are collected along hierarchy edges only" if ok else f"`{ev.what}` is collected as a sub module under `{ev.guard_text}`, which does not restrict it to hierarchy edges: imported modules would count as sub modules"
+                else:
+                    ok = not_h
+                    detail = "recorded only on the import (non-hierarchy) branch" if ok else f"a pair is recorded under `{ev.guard_text}`, which does not exclude hierarchy edges: a package would 'import' its own sub modules"
+                    if ok:
+                        pair = S.record_pair(m, ev)
+                        want = (m.popped, ev.nvar) if m.direction == "succ" else (ev.nvar, m.popped)
+                        if pair is None:
+                            res.undecide("C01.S", key + " [record]", f"cannot tell in which order `{ev.what}` names the current node `{m.popped}` and its neighbour `{ev.nvar}`", where(fi, ev.call))
+                        elif pair != want:
+                            ok = False
+                            detail = f"recorded pair is {pair}, expected (importer, importee) = {want}"
             elif ev.kind == "push":
                 if m.role in ("explicit", "submodules"):
                     ok = is_h
@@ -61,56 +101,67 @@ def run_search(repo: Repo, res: Result) -> None:
                 pushes = [p for p in m.events if p.kind == "push" and p.what == ev.what]
                 ok = ev.what == m.popped or (bool(pushes) and implies(ev.guard, f_or([p.guard for p in pushes])))
                 detail = "only expanded nodes are marked visited" if ok else f"`{ev.what}` is marked visited under `{ev.guard_text}` without being pushed under the same condition: a module first seen through an import edge is never expanded"
-            res.add("C01.S", repo.key(fi, stmt_of(ev.call)) + f" [{ev.kind}]", ok, detail, where(fi, ev.call), kind="dominance")
+            res.add("C01.S", key + f" [{ev.kind}]", ok, detail, where(fi, ev.call), kind="dominance")
         # marks outside the neighbour loop: only the popped node
         for ev in m.events:
             if ev.kind == "mark" and not ev.in_neighbour_loop:
                 n += 1
                 ok = ev.what == m.popped
                 res.add("C01.S", repo.key(fi, stmt_of(ev.call)) + " [mark]", ok, "popped node marked visited" if ok else f"`{ev.what}` marked visited instead of the popped node", where(fi, ev.call), kind="structural")
+        rec = [e for e in m.events if e.kind == "record" and e.in_neighbour_loop]
+        pushes = [e for e in m.events if e.kind == "push"]
+        # the model must have seen what the role needs, otherwise nothing above was checked
+        if m.role in ("explicit", "other") and not rec:
+            res.undecide("C01.S", repo.key(fi, m.neighbour_loop if isinstance(m.neighbour_loop, ast.stmt) else stmt_of(m.neighbour_loop)), f"no result is recorded inside the iteration over `{norm(m.neighbour_call)}` (results built in a later pass are not modelled)", where(fi, m.neighbour_call))
+        if m.role in ("explicit", "submodules") and not pushes:
+            res.undecide("C01.S", repo.key(fi, m.loop), "the search never extends its worklist: descendants of the start module are not reached by a push the model recognises", where(fi, m.loop))
         if m.role == "explicit":
             # S4: object set is the object's whole subtree; both endpoints must not be 'sub modules of' parents
-            rec = [e for e in m.events if e.kind == "record"]
-            obj_param = fi.param_names[2]
-            subj_param = fi.param_names[1]
+            subj_param = m.subject_param or fi.param_names[1]
+            obj_param = m.object_param or fi.param_names[2]
             obj_sets = [v for v, p in m.submodule_sets.items() if p == obj_param]
+            excls = [v for v, ps in m.parent_id_sets.items() if sorted(ps) == sorted([subj_param, obj_param])]
             for e in rec:
                 n += 1
-                ok = bool(obj_sets) and implies(e.guard, atom(f"{m.neighbour_var} in {obj_sets[0]}"))
-                res.add(
-                    "C01.S",
-                    repo.key(fi, stmt_of(e.call)) + " [object subtree]",
-                    ok,
-                    f"target must lie in {S.SUBMODULES}(graph, {obj_param})" if ok else f"the recorded target is not restricted to the object's subtree {S.SUBMODULES}(graph, {obj_param}) (a named module stands for itself and all its descendants)",
-                    where(fi, e.call),
-                    kind="dominance",
-                )
-                excl = None
-                for s_ in own_nodes(fi.node):
-                    if isinstance(s_, ast.Assign) and isinstance(s_.value, ast.Call) and dotted(s_.value.func) == "get_parent_nodes":
-                        arg = s_.value.args[0] if s_.value.args else None
-                        if isinstance(arg, (ast.List, ast.Tuple)) and sorted(dotted(x) for x in arg.elts) == sorted([subj_param, obj_param]):
-                            excl = dotted(s_.targets[0])
+                ok = any(implies(e.guard, atom(f"{e.nvar} in {s}")) for s in obj_sets)
+                unknown = [] if ok else _unknown_sets(m, e.guard, [e.nvar])
+                key = repo.key(fi, stmt_of(e.call)) + " [object subtree]"
+                if not ok and unknown and not obj_sets:
+                    res.undecide("C01.S", key, f"the recorded target is restricted to `{unknown[0]}`, a set the model cannot relate to {S.SUBMODULES}(graph, {obj_param})", where(fi, e.call))
+                else:
+                    res.add(
+                        "C01.S",
+                        key,
+                        ok,
+                        f"target must lie in {S.SUBMODULES}(graph, {obj_param})" if ok else f"the recorded target is not restricted to the object's subtree {S.SUBMODULES}(graph, {obj_param}) (a named module stands for itself and all its descendants)",
+                        where(fi, e.call),
+                        kind="dominance",
+                    )
                 n += 1
-                ok = excl is not None and implies(e.guard, f_and([f_not(atom(f"{m.popped} in {excl}")), f_not(atom(f"{m.neighbour_var} in {excl}"))]))
-                res.add(
-                    "C01.S",
-                    repo.key(fi, stmt_of(e.call)) + " [strict descendants]",
-                    ok,
-                    "'sub modules of X' excludes X itself on both sides" if ok else "the parent of a 'sub modules of' filter is not excluded on both sides of the recorded import",
-                    where(fi, e.call),
-                    kind="dominance",
-                )
+                ok = any(implies(e.guard, f_and([f_not(atom(f"{m.popped} in {x}")), f_not(atom(f"{e.nvar} in {x}"))])) for x in excls)
+                unknown = [] if ok else _unknown_sets(m, e.guard, [m.popped, e.nvar])
+                key = repo.key(fi, stmt_of(e.call)) + " [strict descendants]"
+                if not ok and unknown and not excls:
+                    res.undecide("C01.S", key, f"both ends are tested against `{unknown[0]}`, a set the model cannot relate to the parent-module identifiers of ({subj_param}, {obj_param})", where(fi, e.call))
+                else:
+                    res.add(
+                        "C01.S",
+                        key,
+                        ok,
+                        "'sub modules of X' excludes X itself on both sides" if ok else "the parent of a 'sub modules of' filter is not excluded on both sides of the recorded import",
+                        where(fi, e.call),
+                        kind="dominance",
+                    )
         if m.role == "other":
-            subj = fi.param_names[1] if m.direction == "succ" else fi.param_names[2]
+            subj = m.subject_param or (fi.param_names[1] if m.direction == "succ" else fi.param_names[2])
             own = [v for v, p in m.submodule_sets.items() if p == subj]
-            exc = list(m.accumulated_sets)
+            exc = [v for v, p in m.accumulated_sets.items() if p != subj]
             if not own or not exc:
-                raise AnalysisError(f"{fi.fq}: own-subtree / excluded sets not recognised")
-            for e in [e for e in m.events if e.kind == "record"]:
+                res.undecide("C01.S", repo.key(fi, m.loop), f"the subject's own sub-tree ({S.SUBMODULES}(graph, {subj})) / the accumulated sub-trees of the objects are not recognised (own: {own}, excluded: {exc})", where(fi, m.loop))
+                continue
+            for e in rec:
                 n += 1
-                goal = f_and([f_not(atom(f"{m.neighbour_var} in {exc[0]}")), f_not(atom(f"{m.neighbour_var} in {own[0]}"))])
-                ok = implies(e.guard, goal)
+                ok = any(implies(e.guard, f_not(atom(f"{e.nvar} in {x}"))) for x in exc) and any(implies(e.guard, f_not(atom(f"{e.nvar} in {o}"))) for o in own)
                 res.add(
                     "C01.S",
                     repo.key(fi, stmt_of(e.call)) + " [something else]",
@@ -119,21 +170,19 @@ def run_search(repo: Repo, res: Result) -> None:
                     where(fi, e.call),
                     kind="dominance",
                 )
-            # the subject set skips exactly itself when accumulating the excluded set, and 'sub modules of' adjustments exist
-            for c in calls_in(fi.node):
-                if is_attr_call(c, "update") and dotted(c.func.value) == exc[0] and c.args and isinstance(c.args[0], ast.Call) and dotted(c.args[0].func) == S.SUBMODULES:
-                    n += 1
-                    x = dotted(c.args[0].args[1])
-                    a, b = sorted([x, subj])
-                    skip_ok = implies(guard_formula(fi, c), f_not(atom(f"{a} == {b}")))
-                    res.add(
-                        "C01.S",
-                        repo.key(fi, stmt_of(c)) + " [subject not excluded from itself]",
-                        skip_ok,
-                        "an object equal to the subject does not exclude the subject's own subtree" if skip_ok else "the subject's own subtree can be put into the excluded set (the alias 'anything' = 'except itself' would examine nothing)",
-                        where(fi, c),
-                        kind="dominance",
-                    )
-    res.floor("C01.S", 18, n)
-
-
+            # the subject set skips exactly itself when accumulating the excluded set
+            for st in m.subtree_sites:
+                if st.collection is None or st.target not in exc:
+                    continue
+                n += 1
+                a, b = sorted([st.arg, subj])
+                skip_ok = subj in st.implicit_skips or implies(st.guard, f_not(atom(f"{a} == {b}")))
+                res.add(
+                    "C01.S",
+                    repo.key(fi, stmt_of(st.call)) + " [subject not excluded from itself]",
+                    skip_ok,
+                    "an object equal to the subject does not exclude the subject's own subtree" if skip_ok else "the subject's own subtree can be put into the excluded set (the alias 'anything' = 'except itself' would examine nothing)",
+                    where(fi, st.call),
+                    kind="dominance",
+                )
+    res.floor("C01.S", 15, n)
